@@ -72,6 +72,24 @@ def step (d : DSt) (n : Nat) (ln : Line) : DSt × List String :=
     let now := o.map urlOfEntry
     let cov := if m == d.snap then "COV peek.unchanged" else "COV peek.changed"
     (d, diff n ln (m.map entryTok) ++ judgeOut n (heldJudge d.snap d.delSince now) (String.intercalate "," o) ++ [cov])
+  | "conc" =>
+    -- concurrent adders on a fresh volume: the model runs the ATOMIC steps (any order gives the same set)
+    let ents : List Loc := (a.drop 1).map fun e => match e.splitOn "@" with
+      | [u, dc] => (⟨u, tokDc dc⟩ : Loc) | _ => ⟨e, ""⟩
+    let stm := ents.foldl (fun st l => addLocation st 0 l) ({} : St)
+    let want := (getLocations stm 0).getD []
+    let sorted := (want.map entryTok).mergeSort (fun x y => decide (x ≤ y))
+    let model := ["final"] ++ sorted ++ ["|", "anomalies"]
+    let implFinal := ((o.drop 1).takeWhile (· != "|")).map urlOfEntry
+    let anomalies := (o.dropWhile (· != "anomalies")).drop 1
+    let j1 := judgeOut n (setJudge "ConcurrentAdd" (some want) (some implFinal)) (String.intercalate "," implFinal)
+    let wantUrls := want.map (·.url)
+    let j2 := anomalies.flatMap fun t =>
+      let us := t.splitOn ","
+      if hasDup us then [specfail n "ConcurrentLookup/duplicate-location" t]
+      else if us.all (wantUrls.contains ·) then [] else [specfail n "ConcurrentLookup/not-the-added-set" t]
+    let cov := if want.length = 1 then "COV conc.same-url" else if want.length = ents.length then "COV conc.distinct" else "COV conc.overlap"
+    (d, diff n ln model ++ j1 ++ j2 ++ [cov])
   | _ => (d, [s!"DIFF {n} unknown-op {ln.op}"])
 
 def main : IO Unit := run { init := ({} : DSt), step := step }
